@@ -420,6 +420,25 @@ pub fn run(op: &str, args: &[&str]) -> Option<String> {
             })
         }
         "sch-types" => Some(types()),
+        // sch-deep WHICH N: a chain of N Tuple definitions t0 -> t1 -> ... -> tN (a Primitive), validated /
+        // sized.  The chain is built here (as from_slice would build it from ~29 N bytes) so that the
+        // input does not have to travel through stdin.  The traversals recurse once per link.
+        "sch-deep" => {
+            if args.len() != 2 {
+                return Some("harness-error args".to_string());
+            }
+            let n: usize = args[1].parse().ok()?;
+            let mut defs = std::collections::BTreeMap::new();
+            for i in 0..n {
+                defs.insert(format!("t{:07}", i), Definition::Tuple { elements: vec![format!("t{:07}", i + 1)] });
+            }
+            defs.insert(format!("t{:07}", n), Definition::Primitive(1));
+            let c = BorshSchemaContainer::new("t0000000".to_string(), defs);
+            Some(match args[0] {
+                "validate" => validate_s(&c),
+                _ => maxsize_s(&c),
+            })
+        }
         _ => None,
     }
 }
